@@ -35,6 +35,7 @@ func NewFileStorage(dir string) (Storage, error) {
 
 // Set sets the value for a specific key.
 func (f *fileStorage) Set(key string, value []byte) error {
+	verifCrashPoint("set:begin")
 	file, err := f.fileForWrite(key)
 
 	if err != nil {
@@ -42,8 +43,10 @@ func (f *fileStorage) Set(key string, value []byte) error {
 	}
 
 	defer file.Close()
+	verifCrashPoint("set:opened")
 
 	_, err = file.Write(value)
+	verifCrashPoint("set:written")
 	return err
 }
 
